@@ -323,12 +323,37 @@ def tensor_fields(ctx, which):
     simu, sim = ctx.simu, ctx.sim
     out = []
     for g in gm.main_groups(ctx.mesh):
-        if sim in ("elastic", "phasefield"):
+        if sim == "elastic":
             u = np.asarray(simu.displacement, float)
             eps = simu._Calc_Epsilon_e_pg(u, g)
             f = eps if which == "strain" else simu._Calc_Sigma_e_pg(eps, g)
+        elif sim == "phasefield":
+            u = np.asarray(simu.displacement, float)
+            eps = simu._Calc_Epsilon_e_pg(u, g)
+            if which == "strain":
+                f = eps
+            else:
+                # the stress K_u is built from, assembled here from the model (split: C17) and the degradation function, not
+                # through the simulation's own result function: sigma = g(d) sigma+ + sigma-
+                from EasyFEA import MatrixType
+
+                pfm = simu.phaseFieldModel
+                sP, sM = pfm.Calc_Sigma_e_pg(eps)
+                gd = np.asarray(pfm.Get_g_e_pg(np.asarray(simu.damage, float), g, MatrixType.rigi), float)
+                f = gd[..., None] * np.asarray(sP, float) + np.asarray(sM, float)
         elif sim == "hyperelastic":
-            f = simu._Calc_GreenLagrange(groupElem=g) if which == "strain" else simu._Calc_SecondPiolaKirchhoff(groupElem=g)
+            if which == "strain":
+                # E = 1/2 (F^T F - I) from the deformation gradient, in Kelvin-Mandel order [xx, yy, zz, yz, xz, xy] - not through the
+                # simulation's own result function
+                from EasyFEA import MatrixType
+                from EasyFEA.Models.HyperElastic._state import HyperElasticState
+
+                F = np.asarray(HyperElasticState(g, np.asarray(simu.displacement, float), MatrixType.rigi).Compute_F(), float)
+                E = 0.5 * (np.einsum("epki,epkj->epij", F, F) - np.eye(3))
+                r2 = np.sqrt(2.0)
+                f = np.stack([E[..., 0, 0], E[..., 1, 1], E[..., 2, 2], r2 * E[..., 1, 2], r2 * E[..., 0, 2], r2 * E[..., 0, 1]], axis=-1)
+            else:
+                f = simu._Calc_SecondPiolaKirchhoff(groupElem=g)
         elif sim == "inelastic":
             eps = simu._Calc_Epsilon_e_pg(np.asarray(simu.displacement, float), g)
             f = eps if which == "strain" else simu.material.Compute_stress(eps, ctx.z[g.elemType].copy())
